@@ -40,7 +40,10 @@ func (v *Vue) evaluate(ctx VueContext, nodes []*html.Node, depth int) ([]*html.N
 
 			// Check for v-once early - skip if already rendered
 			// (an element that also carries v-for is checked per iteration, on its clones)
-			if helpers.HasAttr(node, "v-once") && !helpers.HasAttr(node, "v-for") {
+			// (a member of a conditional chain is checked when - and only if - its branch is
+			// chosen, see evaluateNodeAsElement)
+			if helpers.HasAttr(node, "v-once") && !helpers.HasAttr(node, "v-for") &&
+				!helpers.HasAttr(node, "v-if") && !helpers.HasAttr(node, "v-else-if") && !helpers.HasAttr(node, "v-else") {
 				vSeenID := helpers.GetAttr(node, "v-once-id")
 				if ctx.seen[vSeenID] {
 					// This v-once element has already been rendered, skip it
